@@ -227,6 +227,8 @@ impl Store {
     /// As such, there is also no guarantee that the data you see is
     /// already persisted.
     fn tables(&mut self) -> Result<&Tables<'_>> {
+        #[cfg(feature = "verif-hooks")]
+        self.verif_access(crate::verif::AccessKind::Tables);
         let guard = &mut self.transaction;
         let tables = match std::mem::take(guard) {
             CurrentTransaction::None => {
@@ -264,6 +266,8 @@ impl Store {
     /// To ensure that the data is persisted, acquire a snapshot of the database
     /// or call flush.
     fn modify<T>(&mut self, f: impl FnOnce(&mut Tables) -> Result<T>) -> Result<T> {
+        #[cfg(feature = "verif-hooks")]
+        self.verif_access(crate::verif::AccessKind::Modify);
         let guard = &mut self.transaction;
         let tables = match std::mem::take(guard) {
             CurrentTransaction::None => {
@@ -291,6 +295,23 @@ impl Store {
             _ => unreachable!(),
         };
         Ok(res)
+    }
+}
+
+#[cfg(feature = "verif-hooks")]
+impl Store {
+    /// Verification hook: report a store access point; if the harness answers "old", back-date
+    /// the open write transaction so that the regular age check below commits it.
+    fn verif_access(&mut self, kind: crate::verif::AccessKind) {
+        let write_open = matches!(self.transaction, CurrentTransaction::Write(_));
+        if crate::verif::on_store_access(kind, write_open) {
+            if let CurrentTransaction::Write(w) = &mut self.transaction {
+                let age = MAX_COMMIT_DELAY + std::time::Duration::from_millis(100);
+                if let Some(t) = n0_future::time::Instant::now().checked_sub(age) {
+                    w.since = t;
+                }
+            }
+        }
     }
 }
 
@@ -524,6 +545,8 @@ impl Store {
         let nanos = SystemTime::UNIX_EPOCH
             .elapsed()
             .map(|duration| duration.as_nanos() as u64)?;
+        #[cfg(feature = "verif-hooks")]
+        let nanos = crate::verif::clock_nanos().unwrap_or(nanos);
         self.modify(|tables| {
             // ensure the document exists
             anyhow::ensure!(
